@@ -106,3 +106,93 @@ def run_p6(chk, P6, repo):
     if not rec_ok:
         chk.violation(P6, m.rel, '_matrix', 'LCS recurrence', 'the length matrix is not the LCS recurrence',
                       line=mat.node.lineno, witness='any edit of a parameter list')
+
+
+def run_p7(chk, P7, repo):
+    """the FIX flag that is compared describes the node that is edited: no FIX-edited node reaches the next comparison"""
+    from sa.cfg import CFG
+    n_inst = 0
+    for modname, clsname in (('pharmpy.model.external.nonmem.records.omega_record', 'OmegaRecord'),
+                             ('pharmpy.model.external.nonmem.records.theta_record', 'ThetaRecord')):
+        m = repo.module(modname)
+        cls = m.classes.get(clsname)
+        f = cls.methods.get('update') if cls else None
+        if f is None:
+            raise AnalysisError(f'{clsname}.update not found')
+        # flag variables: x = bool(node.find('FIX')) (or node.find('FIX'))
+        flags = {}
+        for n in ast.walk(f.node):
+            if isinstance(n, ast.Assign) and isinstance(n.targets[0], ast.Name):
+                for c in ast.walk(n.value):
+                    if isinstance(c, ast.Call) and isinstance(c.func, ast.Attribute) and c.func.attr == 'find' \
+                            and c.args and isinstance(c.args[0], ast.Constant) and c.args[0].value == 'FIX' \
+                            and isinstance(c.func.value, ast.Name):
+                        flags[n.targets[0].id] = c.func.value.id
+        if not flags:
+            continue
+        cfg = CFG(f.node)
+        for flag, var in flags.items():
+            dirty, kills, tests = set(), set(), set()
+            for nd in cfg.nodes.values():
+                a = nd.ast
+                if nd.kind == 'for' and var in {x.id for x in ast.walk(a.target) if isinstance(x, ast.Name)}:
+                    kills.add(nd.id)
+                if nd.kind == 'stmt' and isinstance(a, ast.Assign) and any(isinstance(t, ast.Name) and t.id == var
+                                                                            for t in a.targets):
+                    rhs_names = {x.id for x in ast.walk(a.value) if isinstance(x, ast.Name)}
+                    has_fix = any(isinstance(c, ast.Constant) and c.value == 'FIX' for c in ast.walk(a.value))
+                    if has_fix and var in rhs_names:
+                        dirty.add(nd.id)
+                    elif var not in rhs_names:
+                        kills.add(nd.id)
+                if nd.kind == 'test' and flag in {x.id for x in ast.walk(a) if isinstance(x, ast.Name)} \
+                        and isinstance(a, ast.Compare):
+                    tests.add(nd.id)
+            for d in sorted(dirty):
+                n_inst += 1
+                reach = set()
+                for s_ in cfg.g.successors(d):
+                    if s_ not in kills:
+                        reach |= cfg.reachable(s_, avoid=kills)
+                hit = sorted(reach & tests)
+                chk.instance(P7, f'{clsname}.update: `{cfg.nodes[d].text()[:60]}` (FIX edit of `{var}`) reaches a comparison with '
+                                 f'`{flag}` without `{var}` being reset: {bool(hit)}')
+                if hit:
+                    t = cfg.nodes[hit[0]]
+                    chk.violation(P7, m.rel, f.qualname, f'{cfg.nodes[d].text()[:70]} ... if {t.text()[5:60]}',
+                                  f'`{flag}` was read from the original `{var}`, but the `{var}` compared against it in the next '
+                                  f'iteration already carries the FIX edit of the previous one',
+                                  line=t.line, path=cfg.describe(cfg.path(d, hit[0], avoid=kills) or [])[-8:],
+                                  witness='$OMEGA (0.1)x3 with only the first omega fixed: written (0.1 FIX) (0.1 FIX) (0.1 FIX); '
+                                          '(0.1 FIX)x3 with the first unfixed loses FIX on all three')
+    if n_inst < 2:
+        raise AnalysisError(f'P7: only {n_inst} FIX edits found')
+
+
+def run_p8(chk, P8, repo):
+    """the running eta number counts the distributions of the new model only"""
+    from sa import lints
+    um = repo.module('pharmpy.model.external.nonmem.update')
+    f = um.functions.get('update_random_variable_records')
+    if f is None:
+        raise AnalysisError('update_random_variable_records not found')
+    loop = next((n for n in walk_no_nested(f.node) if isinstance(n, ast.For) and isinstance(n.target, ast.Tuple)
+                 and any(isinstance(x, ast.AugAssign) and unparse(x.target) == 'eta_number' for x in ast.walk(n))), None)
+    if loop is None:
+        raise AnalysisError('P8: loop over the diff with the eta counter not found')
+    opvar = loop.target.elts[0].id
+
+    def target(s_):
+        return isinstance(s_, ast.AugAssign) and unparse(s_.target) == 'eta_number'
+    want = {1: True, 0: True, -1: False}
+    for op, w in want.items():
+        may, must = lints.exec_under(loop.body, {opvar: op}, target)
+        ok = (must if w else not may)
+        chk.instance(P8, f'op {op:+d}: eta_number advanced may={may} must={must} (wanted {"always" if w else "never"})')
+        if not ok:
+            chk.violation(P8, um.rel, f.qualname, f'op {op:+d}: eta_number += ... may={may} must={must}',
+                          'eta_number is the position of the next random variable in the NEW model; it must advance for added '
+                          'and kept distributions and must not advance for removed ones (create_omega_single/block decide '
+                          'with it whether a name comment is needed)', line=loop.lineno,
+                          witness='remove two etas that precede a BLOCK(2) with default names, then split that block: the '
+                                  'new records lack their name comments and are re-read as OMEGA_1_1/OMEGA_2_2')
